@@ -129,6 +129,44 @@ def delaysHonouredB (log : Log) : Bool :=
 
 def DelaysHonoured (log : Log) : Prop := delaysHonouredB log = true
 
+/-! ### … with respect to the DEVICE: the transaction is protected until its last delay has elapsed -/
+
+/-- position of the first / of the last send of `c` in (a, b) -/
+def firstSendIn (log : Log) (c a b : Nat) : Option Nat :=
+  (List.range b).find? (fun m => decide (a < m) && (sendAt log m == some c))
+def lastSendIn (log : Log) (c a b : Nat) : Option Nat :=
+  (List.range b).reverse.find? (fun m => decide (a < m) && (sendAt log m == some c))
+
+/-- A multi-command transaction owns the connection from its first command until the pause it asked for after its
+last command is over: in a multicomm call of `c` that returns its replies, between its first send and its return nobody
+else touches the connection (send, flush, recv) before the call's LAST send, and after that send nobody else does
+earlier than the delay of the last request (`reqs[m]`, m = number of sends of the call before the last one).
+(`delaysHonouredB` is about what the CALLER sees — it returns late enough; this clause is about what the DEVICE sees:
+the pause after the last command is not filled with other traffic.) -/
+def transactionProtectedB (log : Log) : Bool :=
+  allBelow log.length fun a =>
+    match evAt log a with
+    | some (.call c .multi reqs) =>
+      let b := spanEnd log c a
+      (match firstSendIn log c a b, lastSendIn log c a b with
+       | some p0, some pl =>
+         !(isOkRet (evAt log b)) ||
+         allBetween p0 b fun q =>
+           match trafficAt log q with
+           | some c' => c' == c ||
+               (decide (pl < q) &&
+                decide (timeAt log pl + (reqs.getD (sendsIn log c a pl).length noReq).delay ≤ timeAt log q))
+           | none => true
+       | _, _ => true)
+    | _ => true
+
+def TransactionProtected (log : Log) : Prop := transactionProtectedB log = true
+
+/-- the first half in quantifier form: between two sends of one call of caller `c` nobody else touches the connection -/
+def TransactionUninterrupted (log : Log) : Prop :=
+  ∀ i j k c c', i < j → j < k → sendAt log i = some c → sendAt log k = some c →
+    (∀ m, i < m → m < k → isRetOf c (evAt log m) = false) → trafficAt log j = some c' → c' = c
+
 /-! ### every caller receives the reply to its own command; stale data is never returned -/
 
 def connOfSend (log : Log) (i : Nat) : Nat :=
